@@ -75,6 +75,7 @@ type Options struct {
 	Trace           bool
 	AbstractArith   bool
 	MaxModelsPerKey int
+	BudgetSeconds   int
 	Tier            int
 }
 
@@ -174,6 +175,7 @@ type pathCtx struct {
 	schedOrder  []int // completion order chosen so far (0-based creation index)
 	modelSplits int
 	uniques     map[interface{}]*value
+	pools       map[*value][]value
 }
 
 type accessSet struct {
@@ -259,6 +261,7 @@ func (e *Explorer) SetKnown(ids []string) {
 
 func (e *Explorer) Run() *Result {
 	t0 := time.Now()
+	e.started = t0
 	e.queue = [][]int{{}}
 	var wg sync.WaitGroup
 	n := e.opts.Workers
@@ -347,6 +350,13 @@ func (e *Explorer) worker() {
 			e.cond.Wait()
 		}
 		if e.stop || (len(e.queue) == 0 && e.active == 0) {
+			e.cond.Broadcast()
+			e.mu.Unlock()
+			return
+		}
+		if e.opts.BudgetSeconds > 0 && time.Since(e.started) > time.Duration(e.opts.BudgetSeconds)*time.Second {
+			e.incon[fmt.Sprintf("time budget of %ds exhausted after %d paths", e.opts.BudgetSeconds, e.res.Stats.Paths)] = true
+			e.stop = true
 			e.cond.Broadcast()
 			e.mu.Unlock()
 			return
